@@ -4,7 +4,10 @@ mod common;
 mod alloc;
 mod c01;
 mod c02;
+mod c03;
 mod c06;
+mod c10;
+mod c11;
 mod net;
 
 fn main() {
@@ -17,7 +20,10 @@ fn main() {
     let rc = match (args[1].as_str(), args[2].as_str()) {
         ("c01", "drive") => c01::drive(&kv),
         ("c02", "drive") => c02::drive(&kv),
+        ("c03", "drive") => c03::drive(&kv),
         ("c06", "drive") => c06::drive(&kv),
+        ("c10", "drive") => c10::drive(&kv),
+        ("c11", "drive") => c11::drive(&kv),
         (m, c) => {
             eprintln!("unknown module/command {m} {c}");
             2
